@@ -62,7 +62,10 @@ def build_case(r: random.Random, idx: int, tier: str, forced=None):
     if forced:
         crash, loss = forced[:2]
     H = 6 if loss == 'hold' else 90
-    cfg = {'hold': H, 'families': FAMS, 'adjout': True, 'api': True, 'group_updates': False, 'route_texts': [f'route {p} next-hop {nh} med {m};' for p, nh, m in routes]}
+    adjout = r.random() >= 0.2
+    if forced and len(forced) > 4:
+        adjout = forced[4]
+    cfg = {'hold': H, 'families': FAMS, 'adjout': adjout, 'refresh': adjout, 'api': True, 'group_updates': False, 'route_texts': [f'route {p} next-hop {nh} med {m};' for p, nh, m in routes]}
     before = [api_route(j) for j in range(r.choice([0, 3, 6]))]
     down_ops = r.choice(['none', 'announce', 'withdraw', 'both'])
     # what happens around the resynchronisation itself
@@ -71,6 +74,8 @@ def build_case(r: random.Random, idx: int, tier: str, forced=None):
     if forced and len(forced) > 2:
         prelude, resync = forced[2], forced[3]
         forced = forced[:2]
+    if not adjout:
+        resync = 'none' if resync in ('refresh-at-start', 'refresh+api', 'flush-while-down') else resync  # no route refresh capability without the cache
     steps = [['accept', 30.0]]
     k = None
     if crash == 'after-our-open':
@@ -159,6 +164,8 @@ def build_case(r: random.Random, idx: int, tier: str, forced=None):
         'k': k,
         'n': n,
         'down_ops': down_ops,
+        'adjout': adjout,
+        'api_prefixes': sorted({p for p, _, _ in announced} - {p for p, _, _ in routes}),
         'prelude': prelude,
         'resync': resync,
         'late': [p for p, _, _ in late],
@@ -170,7 +177,7 @@ def build_case(r: random.Random, idx: int, tier: str, forced=None):
 
 def plan(tier, seed):
     n = 16
-    return [{'shard': i, 'nshards': n, 'cases': 6 if tier == 'quick' else 60} for i in range(n)]
+    return [{'shard': i, 'nshards': n, 'cases': 7 if tier == 'quick' else 60} for i in range(n)]
 
 
 def judge(res: Result, case, rec):
@@ -233,6 +240,15 @@ def judge(res: Result, case, rec):
         addr, ml = p.split('/')
         fam = socket.AF_INET6 if ':' in addr else socket.AF_INET
         want[f'{socket.inet_ntop(fam, socket.inet_pton(fam, addr))}/{ml}'] = (nh, m)
+    if not case.get('adjout', True):
+        # without an Adj-RIB-Out nothing remembers the API routes of an earlier session: only the configured routes
+        # and what the API asked for on the new session are judged
+        late = set(case.get('late', []))
+        api_only = set(case.get('api_prefixes', []))
+        for p in [p for p in list(want) + list(got) if (p.startswith('172.16.') or p in api_only) and p not in late]:
+            want.pop(p, None)
+            got.pop(p, None)
+    wit['adjout'] = case.get('adjout', True)
     wit['messages_on_new_session'] = nmsg
     missing = sorted(set(want) - set(got))
     extra = sorted(set(got) - set(want))
@@ -268,6 +284,7 @@ def judge(res: Result, case, rec):
     res.ok('down:' + case['down_ops'])
     res.ok('prelude:' + case['prelude'])
     res.ok('resync:' + case['resync'])
+    res.ok('adj-rib-out:' + str(case.get('adjout', True)).lower())
     res.extra.setdefault('routes_resynchronised', 0)
     res.extra['routes_resynchronised'] += len(want)
 
@@ -277,6 +294,7 @@ def run_shard(desc):
     r = random.Random(desc['seed'] * 7727 + desc['shard'])
     forced_list = [(c, l) for c in ('batch', 'after-our-open', 'after-peer-open', 'after-keepalive', 'steady') for l in ('eof', 'rst', 'notification', 'hold')]
     forced_list += [('steady', 'eof', 'reload-neighbor-change', 'none'), ('steady', 'rst', 'reload-neighbor-change', 'api-during-batch'), ('batch', 'eof', 'none', 'refresh+api'), ('steady', 'notification', 'none', 'refresh+api'),
+                    ('batch', 'rst', 'none', 'none', False), ('steady', 'eof', 'none', 'api-during-batch', False), ('steady', 'notification', 'reload-neighbor-change', 'none', False),
                     ('batch', 'rst', 'none', 'refresh-at-start'), ('steady', 'eof', 'none', 'api-during-batch'), ('batch', 'eof', 'none', 'flush-while-down'), ('steady', 'hold', 'reload-neighbor-change', 'refresh+api')]
     for i in range(desc['cases']):
         forced = None
@@ -297,6 +315,6 @@ def run_shard(desc):
 
 REQUIRED_CLASSES = {
     'quick': ['crash:batch', 'crash:steady', 'crash:after-our-open', 'crash:after-peer-open', 'crash:after-keepalive', 'loss:eof', 'loss:rst', 'loss:notification', 'loss:hold', 'down:announce', 'down:withdraw',
-              'prelude:reload-neighbor-change', 'resync:refresh-at-start', 'resync:api-during-batch', 'resync:refresh+api', 'resync:flush-while-down'],
+              'prelude:reload-neighbor-change', 'resync:refresh-at-start', 'resync:api-during-batch', 'resync:refresh+api', 'resync:flush-while-down', 'adj-rib-out:false', 'adj-rib-out:true'],
 }
 REQUIRED_CLASSES['thorough'] = REQUIRED_CLASSES['quick']
